@@ -12,13 +12,28 @@ os.environ["JBV_NO_CANON"] = "1"
 from jbv import facts  # noqa: E402
 
 table = {}
+allfns = set()
+os.environ["JBV_NO_INLINE"] = "1"
 for cfg in ("default", "nodefault", "simd"):
     p = facts.load(cfg)
     for path, b in p.bodies.items():
         if b.kind == "Closure":
             continue
+        allfns.add(path)
         names = [b.local_name(l) for l in range(1, b.argc + 1)]
         if any(names):
             table.setdefault(path, names)
 json.dump(table, open(os.path.join(VERIF, "jbv", "param_names.json"), "w"), indent=0, sort_keys=True)
-print(len(table), "functions")
+fields = {}
+for cfg in ("default", "nodefault", "simd"):
+    p = facts.load(cfg)
+    for path, a in p.adts.items():
+        fields.setdefault(path, {v["name"]: [f["name"] for f in v["fields"]] for v in a.get("variants", [])})
+json.dump(fields, open(os.path.join(VERIF, "jbv", "pinned_fields.json"), "w"), indent=0, sort_keys=True)
+consts = set()
+for cfg in ("default", "nodefault", "simd"):
+    p = facts.load(cfg)
+    consts |= set(p.consts)
+json.dump(sorted(consts), open(os.path.join(VERIF, "jbv", "pinned_consts.json"), "w"), indent=0)
+json.dump(sorted(allfns), open(os.path.join(VERIF, "jbv", "pinned_fns.json"), "w"), indent=0)
+print(len(table), "functions with named parameters;", len(allfns), "pinned functions")
